@@ -434,6 +434,37 @@ def normlist(case, ctx):
         rows.append(nl.get_derivative_wrt_unnormed_features(X0.copy(), Vj))
     lin = sum(V[:, j][:, None, :] * rows[j] for j in range(nf))
     sc = sum(np.abs(V[:, j][:, None, :] * rows[j]) for j in range(nf)) + 1e-300
+    # The derivative with respect to a raw semilocal row is a sum over two paths (the normaliser's explicit density
+    # dependence and its dependence on the inhomogeneity variable, which is itself a function of the raw rows); for a
+    # `from_params` normaliser at rho = 1.3e-5 the two are -1.8143e9 and +1.8139e9 (thorough tier, seed 3), so both
+    # evaluations carry rounding of 1e9 eps, not of the 4e5 that is left.  The magnitudes of the paths are taken from the
+    # normalisers' own public reverse routines and added to the scale.
+    from ciderpress.dft.feat_normalizer import CFC
+
+    mode = case["slmode"]
+    rho_c = np.maximum(X0[:, 0], nl.cutoff)
+    chain = np.zeros_like(X0)
+    if mode == "npa":
+        inh = 5.0 / 3 * X0[:, 1] + X0[:, 2]
+        chain[:, 1], chain[:, 2] = 5.0 / 3, 1.0
+    elif mode == "np":
+        inh = 5.0 / 3 * X0[:, 1]
+        chain[:, 1] = 5.0 / 3
+    elif mode == "nst":
+        inh = X0[:, 2] / (CFC * rho_c ** (5.0 / 3))
+        chain[:, 0], chain[:, 2] = 5.0 / 3 * inh / rho_c, 1.0 / (CFC * rho_c ** (5.0 / 3))
+    else:
+        inh = X0[:, 1] / (8 * CFC * rho_c ** (8.0 / 3))
+        chain[:, 0], chain[:, 1] = 8.0 / 3 * inh / rho_c, 1.0 / (8 * CFC * rho_c ** (8.0 / 3))
+    a_rho, a_inh = np.zeros_like(rho_c), np.zeros_like(rho_c)
+    for k_, nrm in enumerate(norms):
+        if nrm is not None:
+            _, dr_, di_ = nrm.fill_bwd(V[:, k_].copy(), X0[:, k_].copy(), rho_c.copy(), inh.copy())
+            a_rho += np.abs(dr_)
+            a_inh += np.abs(di_)
+    internal = np.abs(chain) * a_inh[:, None, :]
+    internal[:, 0] += a_rho
+    sc = sc + internal
     ctx.close(back / sc, lin / sc, ("reverse_linear", case["slmode"]), rtol=1e-12, scale=1.0)
     for j in range(nf):
         for i in range(nf):
@@ -460,6 +491,7 @@ def normlist(case, ctx):
         fd_check_vec(ctx, g, fwd, ("forward", case["slmode"]), 1e-3 * np.ones((nf, ns)), rtol=1e-6)
         # <V, J D> == <J^T V, D>, judged per sample against the size of the terms
         terms = np.sum(np.abs(V[s] * fwd), axis=0) + np.sum(np.abs(back[s] * D), axis=0) + 1e-300
+        terms = terms + np.sum(internal[s] * np.abs(D), axis=0)     # the cancelling paths behind each entry (see reverse_linear)
         lhs = np.sum(V[s] * fwd, axis=0)
         rhs = np.sum(back[s] * D, axis=0)
         ctx.close(lhs / terms, rhs / terms, ("transpose", case["slmode"]), rtol=1e-12, scale=1.0)
